@@ -473,6 +473,10 @@ func (p *parser) resetInsertionMode() {
 		case a.Template:
 			// TODO: remove this divergence from the HTML5 spec.
 			if n.Namespace != "" {
+				if last {
+					p.im = inBodyIM
+					return
+				}
 				continue
 			}
 			p.im = p.templateStack.top()
@@ -2346,7 +2350,7 @@ func ParseFragmentWithOptions(r io.Reader, context *Node, opts ...ParseOption) (
 	}
 	p.doc.AppendChild(root)
 	p.oe = nodeStack{root}
-	if context != nil && context.DataAtom == a.Template {
+	if context != nil && context.DataAtom == a.Template && context.Namespace == "" {
 		p.templateStack = append(p.templateStack, inTemplateIM)
 	}
 	p.resetInsertionMode()
